@@ -94,6 +94,10 @@ func (s *c11State) SetIPv6Autoconf(iface string, enable bool) error {
 	case "eperm":
 		return errEPERM
 	case "enoent":
+		// The interface vanished; when it comes back (the next dial finds it) it has been
+		// re-created, with the other autoconf value than before.
+		s.autoconf = !s.autoconf
+		vsched.Obs("recreated", "autoconf=%t", s.autoconf)
 		return errENOENT
 	case "other":
 		return errOther
